@@ -47,3 +47,21 @@ Proof.
   rewrite (link_epochs cap lam seal polr vals Ds K OK F C HK), (link_epochs cap lam seal polr vals Ds' K OK' F' C' HK).
   apply reference_epochs_same_sets. exact EV.
 Qed.
+
+(* C08: a restart right after a seal (or right after genesis / Reset): Bootstrap of an instance that has not
+   processed any event of its epoch finds no roots, emits nothing, and is again the instance an epoch starts
+   with (the Build counter restarts at 0) *)
+Lemma restart_of_fresh cap pol ep vals conf c es :
+  step cap pol sample (fresh_inst ep vals conf c es) OpR = (ObsR None [] 0 ep, fresh_inst ep vals conf 0 es, false).
+Proof. reflexivity. Qed.
+
+Theorem link_restart_after_seal cap lam pol seal polr K ep vals Ds conf c es : K < 2 ^ 192 ->
+  epochs_ok seal polr vals ep Ds -> pol_ok pol seal polr vals ep (length Ds) ->
+  (forall D e, In D Ds -> In e D -> id_fresh K (eid (fe e))) -> N.of_nat (total_events Ds) <= K ->
+  let i0 := fresh_inst ep (mk_vals vals) conf c es in
+  fst (fst (step cap pol sample i0 OpR)) = ObsR None [] 0 ep /\
+  model_epochs cap lam pol polr (snd (fst (step cap pol sample i0 OpR))) vals ep Ds = reference_epochs seal polr vals ep Ds.
+Proof.
+  intros HK OK PO Hfr Hc. cbn zeta. rewrite restart_of_fresh. cbn [fst snd]. split; [reflexivity|].
+  apply (model_epochs_sim cap lam pol seal polr K HK); auto.
+Qed.
